@@ -13,7 +13,7 @@ def cases(tier, seed):
     rng = random.Random(seed * 1327 + 3)
     n = 1500 if tier == 'quick' else 15000
     for i in range(n):
-        A = X.random_fst(rng)
+        A = X.random_fst(rng, names=('q0', 'q1', 'q2') if rng.random() < 0.8 else ('star', 'q0', 'star0'))
         B = X.random_fst(rng, names=('q0', 'q1', 'q2') if rng.random() < 0.7 else ('r0', 'q00', 'q1'))
         yield {'kind': 'fst', 'A': X.to_json(A), 'B': X.to_json(B), 'same': rng.random() < 0.05}
     for i in range(n // 3):
@@ -59,7 +59,9 @@ def check(case):
         Bd = 4
         for name, thunk, ref in (('union', lambda: fa_.union(fb), X.ref_union(A, B)), ('__or__', lambda: fa_ | fb, X.ref_union(A, B)),
                                  ('concatenate', lambda: fa_.concatenate(fb), X.ref_concat(A, B)), ('__add__', lambda: fa_ + fb, X.ref_concat(A, B)),
-                                 ('kleene_star', fa_.kleene_star, X.ref_star(A))):
+                                 ('kleene_star', fa_.kleene_star, X.ref_star(A)),
+                                 ('kleene_star.kleene_star', lambda: fa_.kleene_star().kleene_star(), X.ref_star(X.ref_star(A))),
+                                 ('kleene_star.concatenate.kleene_star', lambda: fa_.kleene_star().concatenate(fb).kleene_star(), X.ref_star(X.ref_concat(X.ref_star(A), B)))):
             try: r = thunk()
             except TO: raise
             except Exception as ex: fails.append(fail(f'C16.{name}:exception', repr(ex))); continue
